@@ -284,6 +284,16 @@ func c06Run(e *vsched.Exec, c c06Cfg) {
 		if !errors.As(got, &de) || de.Message != c.DialErr {
 			e.Fail("(iii) dial failure reached the client as %v (TCP err %v, first Read err %v), expected DialError{%q}", got, tcpErr, appReadErr, c.DialErr)
 		}
+		// ... and as a dial error only: an error that also says "the connection is closed" makes a
+		// reconnecting client tear the whole connection down, cutting every other relay on it although
+		// neither of their endpoints closed (added after the independently seeded change C06-8)
+		var ce coreErrs.ClosedError
+		if errors.As(got, &ce) {
+			e.Fail("(iii) the server refused the dial (%q) and the client reports it as a closed connection: %v", c.DialErr, got)
+		}
+		if nt.Conns[0].IsClosed() {
+			e.Fail("(iii) the server refused the dial (%q) and the QUIC connection was closed", c.DialErr)
+		}
 		if r.Targets[addr] != nil || tgtGot.Len() > 0 {
 			e.Fail("(iii) bytes relayed after a failed dial")
 		}
